@@ -12,7 +12,10 @@ from harness.lib import common
 PROP = 'C19'
 PROP_FILE = 'Props/C19.v'
 THEOREMS = ['C19_split_invariant', 'C19_matches_reference', 'C19_truncated_or_corrupt_is_error',
-            'C19_stream_glue', 'C19_stream_glue_wire', 'C19_stream_glue_short_is_error', 'C19_content_encoding_selection']
+            'C19_stream_glue', 'C19_stream_glue_wire', 'C19_stream_glue_short_is_error', 'C19_content_encoding_selection',
+            'C19_data_after_end_marker_ignored', 'C19_zlib_sniff_shape',
+            'C19_wrapped_gzip_success', 'C19_wrapped_zlib_success', 'C19_sniff_agrees_with_zlib',
+            'C19_wrapped_data_after_end_marker_ignored']
 TRUSTED = [
     'zlib is modelled as an arbitrary byte-at-a-time machine (Section variables of Model/Decomp.v): '
     'its output/error/eof after a prefix is a function of that prefix - sampled against the real zlib on every case',
@@ -41,35 +44,120 @@ def _payload(r):
     return bytes(r.randrange(32, 127) for _ in range(r.randrange(1, 12)))
 
 
+ZLIB_HEADERS = [(c, f) for c in range(256) for f in range(256)
+                if c & 15 == 8 and c >> 4 <= 7 and (c * 256 + f) % 31 == 0 and not f & 32]      # the 32 of RFC 1950
+
+
+def _near_headers():
+    """two-byte prefixes that look like a zlib header at first sight (CM = 8) but are not one:
+    window size > 7, FDICT set, or a failing FCHECK"""
+    out = []
+    for c in range(8, 256, 16):
+        for f in range(100):
+            if (c, f) in ZLIB_HEADERS:
+                continue
+            chk = (c * 256 + f) % 31 == 0
+            if (c >> 4 > 7 and chk) or (f & 32 and chk) or (c >> 4 <= 7 and not f & 32 and (c * 256 + f) % 31 in (1, 30)):
+                out.append((c, f))
+    return out
+
+
+NEAR = _near_headers()
+
+
+def _raw_lookalike(r, payload, near=False):
+    """a VALID raw deflate stream (non-final stored block with a non-zero padding bit, then a
+    normal final part) whose first two bytes pass the RFC 1950 header check - or, with near=True,
+    just fail it (CINFO > 7 / FDICT / FCHECK off by one).  Returns (stream, content)."""
+    c, f = r.choice(NEAR if near else [x for x in ZLIB_HEADERS if x[1] < 100])
+    content = ((payload or b'\x00') * (f + 1))[:f]
+    nlen = f ^ 0xffff
+    co = zlib.compressobj(r.randrange(10), zlib.DEFLATED, -15)
+    return bytes([c, f, 0, nlen & 255, nlen >> 8]) + content + co.compress(payload) + co.flush(), content + payload
+
+
 def _encode(r, payload):
-    """returns (kind, body, tag, complete?)"""
-    t = r.randrange(10)
+    """returns (kind, body, tag, complete?, expected decoding or None when not pinned down here)"""
+    t = r.randrange(16)
     lvl = r.randrange(0, 10)
     if t <= 1:
-        return 'KGzip', gzip.compress(payload, lvl, mtime=0), 'gzip', True
+        return 'KGzip', gzip.compress(payload, lvl, mtime=0), 'gzip', True, payload
     if t == 2:
-        return 'KDeflate', zlib.compress(payload, lvl), 'zlib', True
+        return 'KDeflate', zlib.compress(payload, lvl), 'zlib', True, payload
     if t == 3:
         c = zlib.compressobj(lvl, zlib.DEFLATED, -15)
-        return 'KDeflate', c.compress(payload) + c.flush(), 'raw', True
+        return 'KDeflate', c.compress(payload) + c.flush(), 'raw', True, payload
     if t == 4:
-        return 'KIdentity', payload, 'identity', True
+        return 'KIdentity', payload, 'identity', True, payload
     if t == 5:   # not gzip although declared
-        return 'KGzip', payload, 'gzip-declared-plain', False
+        return 'KGzip', payload, 'gzip-declared-plain', False, None
     if t == 6:   # garbage declared deflate
-        return 'KDeflate', payload, 'deflate-garbage', False
-    if t == 7:   # multi member / trailing junk
+        return 'KDeflate', payload, 'deflate-garbage', False, None
+    if t == 7:   # multi member: only the first member is decoded (as zlib.decompress does)
         b = gzip.compress(payload, lvl, mtime=0)
-        return 'KGzip', b + r.choice([b'junk', b, b'\x00']), 'gzip-trailing', False
+        more = b''.join(gzip.compress(_payload(r), r.randrange(10), mtime=0) for _ in range(r.randrange(1, 3)))
+        return 'KGzip', b + more, 'gzip-multi', False, payload       # (or every member, or an error: see _accepts)
     if t == 8:   # corrupt one byte
         k, b = r.choice([('KGzip', gzip.compress(payload, lvl, mtime=0)), ('KDeflate', zlib.compress(payload, lvl))])
         i = r.randrange(len(b))
-        return k, b[:i] + bytes([b[i] ^ (1 << r.randrange(8))]) + b[i + 1:], 'corrupt', False
+        return k, b[:i] + bytes([b[i] ^ (1 << r.randrange(8))]) + b[i + 1:], 'corrupt', False, None
+    if t == 9:   # data after the end marker: garbage, zero padding, a single byte
+        junk = r.choice([b'junk', b'\x00' * r.randrange(1, 9), bytes([r.randrange(256)]),
+                         bytes(r.randrange(256) for _ in range(r.randrange(2, 12))), b'\x1f\x8b'])
+        w = r.randrange(3)
+        if w == 0:
+            return 'KGzip', gzip.compress(payload, lvl, mtime=0) + junk, 'gzip-junk', False, payload
+        if w == 1:
+            return 'KDeflate', zlib.compress(payload, lvl) + junk, 'zlib-junk', False, payload
+        c = zlib.compressobj(lvl, zlib.DEFLATED, -15)
+        body = c.compress(payload) + c.flush()
+        # (a raw stream that happens to start like a zlib header is the look-alike class below)
+        return 'KDeflate', body + junk, 'raw-junk', False, None if _is_zlib_header(*(body + junk)[:2]) else payload
+    if t == 10:  # zlib stream with a preset dictionary (FDICT set): never taken for zlib
+        zd = bytes(r.randrange(97, 123) for _ in range(r.randrange(4, 20)))
+        c = zlib.compressobj(lvl, zlib.DEFLATED, 15, 8, zlib.Z_DEFAULT_STRATEGY, zd)
+        return 'KDeflate', c.compress(zd[:5] + payload) + c.flush(), 'zlib-fdict', False, None
+    if t == 11:  # valid raw deflate that looks like zlib in its first two bytes - or only nearly so
+        if r.random() < 0.5:
+            body, content = _raw_lookalike(r, payload, near=True)
+            return 'KDeflate', body, 'raw-nearlookalike', True, content
+        body, content = _raw_lookalike(r, payload)
+        return 'KDeflate', body, 'raw-lookalike', False, None
+    if t == 12:  # gzip header variants: FNAME / FEXTRA / FCOMMENT / FHCRC, reserved flag, wrong method
+        body = _gzip_variant(r, payload, lvl)
+        return ('KGzip',) + body
     # zlib header variants incl. FDICT / lookalikes in front of raw data
     c = zlib.compressobj(lvl, zlib.DEFLATED, -15)
     raw = c.compress(payload) + c.flush()
     hdr = r.choice([b'\x78\x9c', b'\x78\xbb', b'\x08\x1d', b'\x78\x01', b'\x88\x1c', b'\x78'])
-    return 'KDeflate', hdr + raw, 'hdr-variant', False
+    return 'KDeflate', hdr + raw, 'hdr-variant', False, None
+
+
+def _gzip_variant(r, payload, lvl):
+    """gzip members with optional header fields (RFC 1952), valid and invalid"""
+    import struct
+    c = zlib.compressobj(lvl, zlib.DEFLATED, -15)
+    raw = c.compress(payload) + c.flush()
+    flg = r.choice([0, 4, 8, 16, 2, 12, 28, 30, 1, 31])
+    bad = r.choice([None, None, None, 'reserved', 'method', 'hcrc', 'crc', 'isize', 'magic2'])
+    f = flg | (0x20 << r.randrange(3) if bad == 'reserved' else 0)
+    head = bytes([0x1f, 0x8b if bad != 'magic2' else r.choice([0x8c, 0x00, 0x1f]), 8 if bad != 'method' else r.choice([7, 0, 9]), f]) \
+        + struct.pack('<IBB', r.choice([0, 1, 0xffffffff]), r.choice([0, 2, 4]), r.choice([3, 255, 0]))
+    if f & 4:
+        x = bytes(r.randrange(256) for _ in range(r.randrange(0, 6)))
+        head += struct.pack('<H', len(x)) + x
+    if f & 8:
+        head += bytes(r.randrange(1, 256) for _ in range(r.randrange(0, 6))) + b'\x00'
+    if f & 16:
+        head += bytes(r.randrange(1, 256) for _ in range(r.randrange(0, 6))) + b'\x00'
+    if f & 2:
+        h = zlib.crc32(head) & 0xffff
+        head += struct.pack('<H', h ^ (1 if bad == 'hcrc' else 0))
+    crc = zlib.crc32(payload) ^ (0x100 if bad == 'crc' else 0)
+    isize = (len(payload) + (1 if bad == 'isize' else 0)) & 0xffffffff
+    body = head + raw + struct.pack('<II', crc, isize)
+    ok = bad is None
+    return body, 'gzip-hdr-' + (bad or 'ok'), ok, (payload if ok else None)
 
 
 def _splits(r, body, n_extra):
@@ -96,11 +184,11 @@ def generate(r, n_bodies, max_len=150, n_extra=2):
     cases = []
     while len(cases) < n_bodies * 6:
         payload = _payload(r)
-        kind, body, tag, complete = _encode(r, payload)
+        kind, body, tag, complete, expect = _encode(r, payload)
         if len(body) > max_len:
             continue
         variants = [(body, tag, False)]
-        if complete and tag in ('gzip', 'zlib', 'raw') and len(body) > 1:
+        if complete and (tag in ('gzip', 'zlib', 'raw') or tag.startswith('gzip-hdr')) and len(body) > 1:
             cut = r.randrange(1, len(body))
             variants.append((body[:cut], tag + '-truncated', True))
             variants.append((body[:-1], tag + '-truncated-last', True))
@@ -108,6 +196,8 @@ def generate(r, n_bodies, max_len=150, n_extra=2):
             for ps in _splits(r, b, n_extra):
                 cases.append({'kind': kind, 'pieces': [p.hex() for p in ps], 'tag': tg, 'truncated': trunc,
                               'tables': True})
+                if expect is not None and not trunc:
+                    cases[-1]['expect'] = expect.hex()
     return cases
 
 
@@ -277,7 +367,7 @@ def generate_glue(r, n_msgs, big=0):
         is_big = mi >= n_msgs
         payload = _big_payload(r) if is_big else _payload(r)
         for _ in range(20):
-            body_kind, entity, tag, complete = _encode(r, payload)
+            body_kind, entity, tag, complete, _expect = _encode(r, payload)
             if is_big or len(entity) <= 150:
                 break
         if is_big and body_kind == 'KIdentity' and r.random() < 0.5:
@@ -503,10 +593,107 @@ def glue_correspondence(ctx, r):
             'errors': sum(1 for x in results if x['error'])}
 
 
+# ---------------------------------------------------------------------------
+# the concrete zlib / gzip wrappers of Model/DecompWrap.v vs the real zlib, byte for byte
+# ---------------------------------------------------------------------------
+WRAP_HEADER = HEADER.replace('Model.Decomp.', 'Model.Decomp Model.DecompWrap.') + r"""
+Fixpoint rows_eqb (a b : list (bool * bool * nat)) : bool :=
+  match a, b with
+  | [], [] => true
+  | (e1, f1, n1) :: a', (e2, f2, n2) :: b' => Bool.eqb e1 e2 && Bool.eqb f1 f2 && Nat.eqb n1 n2 && rows_eqb a' b'
+  | _, _ => false
+  end.
+Definition tab_eqb (x : list (bool * bool * nat) * list N) (t : ztab) : bool :=
+  rows_eqb (fst x) (zt_rows t) && list_eqb (snd x) (zt_out t).
+Definition T0 : ztab := {| zt_rows := []; zt_out := [] |}.
+"""
+
+
+def wrap_bodies(r, cases, n_extra):
+    seen, out = set(), []
+    for c in cases:
+        b = ''.join(c['pieces'])
+        if b and b not in seen and c['kind'] != 'KIdentity':
+            seen.add(b)
+            out.append((b, c['tag']))
+    for _ in range(2 * n_extra):             # valid and variant bodies (no splits needed here), and their truncations
+        kind, body, tag, complete, _e = _encode(r, _payload(r))
+        if kind == 'KIdentity' or len(body) > 220:
+            continue
+        for b in [body] + ([body[:r.randrange(1, len(body))]] if len(body) > 1 and r.random() < 0.3 else []):
+            if b and b.hex() not in seen:
+                seen.add(b.hex())
+                out.append((b.hex(), 'wrap-' + tag))
+    for _ in range(n_extra):
+        t = r.randrange(4)
+        rnd = bytes(r.randrange(256) for _ in range(r.randrange(0, 30)))
+        if t == 0:
+            b = b'\x1f\x8b' + bytes([r.choice([8, 8, 8, 0, 7])]) + rnd
+        elif t == 1:
+            b = bytes(r.choice(ZLIB_HEADERS)) + rnd
+        elif t == 2:
+            b = bytes([r.choice([0x78, 0x08, 0x88, 0x79]), r.randrange(256)]) + rnd
+        else:
+            b = rnd
+        if b and b.hex() not in seen:
+            seen.add(b.hex())
+            out.append((b.hex(), 'wrap-random'))
+    return out
+
+
+def wrap_correspondence(ctx, r, cases):
+    bodies = wrap_bodies(r, cases, 60 if not ctx.thorough else 3000)
+    shard = 80
+    chunks = [bodies[i:i + shard] for i in range(0, len(bodies), shard)]
+    outs = common.run_impl_sharded('c19_impl.py', [{'wrap': [b for b, _ in c]} for c in chunks], par=6)
+    results = [x for o in outs for x in o['results']]
+    items = []
+    for (b, tag), res in zip(bodies, results):
+        t15 = _coq_tab(res['raw15']) if res['raw15'] else 'T0'
+        t31 = _coq_tab(res['raw31']) if res['raw31'] else 'T0'
+        items.append('tab_eqb (wtab %s W15 (unhex "%s")) %s && tab_eqb (wtab %s W31 (unhex "%s")) %s'
+                     % (t15, b, _coq_tab(res['W15']), t31, b, _coq_tab(res['W31'])))
+    per = 50
+    files = [WRAP_HEADER + 'Definition checks : list bool := [\n  ' + ';\n  '.join(items[i:i + per]) +
+             '].\nEval vm_compute in (failing checks).\n' for i in range(0, len(items), per)]
+    disagreements = []
+    for bi, (rc, out) in enumerate(common.coq_eval_many(files, par=6)):
+        fails = common.parse_vm_list(out) if rc == 0 else None
+        if fails is None:
+            disagreements.append({'wrap_shard': bi, 'coq_error': out[-600:]})
+            continue
+        for f in fails:
+            b, tag = bodies[bi * per + int(f)]
+            disagreements.append({'body': b, 'tag': tag,
+                                  'note': 'concrete zlib/gzip wrapper (Model/DecompWrap over the real raw-inflater table) differs from the real zlib table'})
+    reached = sum(1 for res in results if any(row[1] for row in res['W15']['rows']) or any(row[1] for row in res['W31']['rows']))
+    for (b, tag), res in zip(bodies, results):
+        if not res['after_eof_ok']:
+            disagreements.append({'body': b, 'note': 'zlib law "input after the end marker is swallowed" failed (assumption sample)'})
+        if not res['machine_ok']:
+            disagreements.append({'body': b, 'note': 'zlib machine abstraction failed (assumption sample)'})
+    return {'n': len(bodies), 'disagreements': disagreements, 'reached_end_marker': reached,
+            'after_eof_bytes': sum(res['after_eof_n'] for res in results),
+            'errors': sum(1 for res in results if res['W15']['rows'] and res['W15']['rows'][-1][0]) }
+
+
+def _all_members(case):
+    try:
+        return gzip.decompress(bytes.fromhex(''.join(case['pieces']))).hex()
+    except Exception:
+        return None
+
+
 def _property_on_impl(case, res):
     """the property itself, on the implementation's answers"""
     if 'gen' in case and not case.get('truncated') and res['oneshot'] != res.get('expect'):
         return 'wrong-content'
+    if case.get('expect') is not None and res['oneshot'] != case['expect']:
+        # data after the end marker (a further gzip member, garbage): the model says "ignored"; a decoder that
+        # decodes every member or rejects the garbage would not contradict the property text either
+        lenient = case['tag'].endswith('-junk') or case['tag'] == 'gzip-multi'
+        if not (lenient and (res['oneshot'] is None or (case['tag'] == 'gzip-multi' and res['oneshot'] == _all_members(case)))):
+            return 'wrong-content'
     if res['stream'] != res['oneshot']:
         return 'split-dependence'
     if res['glue'] != res['stream']:
@@ -529,7 +716,7 @@ def _violations(cases, results):
     for c, r in zip(cases, results):
         why = _property_on_impl(c, r)
         if why:
-            cc = {k: c[k] for k in ('kind', 'pieces', 'tag', 'truncated', 'gen') if k in c}
+            cc = {k: c[k] for k in ('kind', 'pieces', 'tag', 'truncated', 'gen', 'expect') if k in c}
             out.append({'why': why, 'case': cc, 'impl': {k: r[k] for k in ('stream', 'oneshot', 'glue')}})
     return out
 
@@ -573,6 +760,10 @@ def correspondence(ctx):
     machine_bad = [c for c, res in zip(cases, results) if not res['machine_ok']]
     for c in machine_bad[:5]:
         disagreements.append({'case': c['pieces'], 'note': 'zlib machine abstraction failed (assumption sample)'})
+    after_eof_bad = [c for c, res in zip(cases, results) if not res['after_eof_ok']]
+    for c in after_eof_bad[:5]:
+        disagreements.append({'case': c['pieces'], 'note': 'zlib law "input after the end marker is swallowed" failed (assumption sample)'})
+    reached_eof = sum(res['after_eof_n'] for res in results)
     nontriv = set()
     tags = {}
     for c, res in zip(cases, results):
@@ -588,10 +779,14 @@ def correspondence(ctx):
         tags[c['tag']] = tags.get(c['tag'], 0) + 1
     glue = glue_correspondence(ctx, common.rng('c19-glue'))
     disagreements += glue['disagreements']
+    wrap = wrap_correspondence(ctx, common.rng('c19-wrap'), cases)
+    disagreements += wrap['disagreements']
     tags.update(glue['tags'])
     nontriv |= {('glue',) + x for x in glue['nontrivial']}
     return {
-        'evaluations': len(cases) + len(large) + len(glue['cases']),
+        'evaluations': len(cases) + len(large) + len(glue['cases']) + wrap['n'],
+        'wrapper_bodies_compared_bytewise_with_real_zlib': {'bodies': wrap['n'], 'reached_end_marker': wrap['reached_end_marker'],
+                                                            'bytes_fed_after_end_marker': wrap['after_eof_bytes']},
         'glue_cases_through_Stream_read_body': len(glue['cases']),
         'glue_errors_from_impl': glue['errors'],
         'str_lower_fact': glue['lower_fact'],
@@ -605,7 +800,8 @@ def correspondence(ctx):
                 'non-trivial = a decoder was selected and the reader handed it more than one piece',
         'samples': [{k: cases[i][k] for k in ('kind', 'pieces', 'tag')} for i in (0, len(cases) // 2, len(cases) - 1)],
         'input_distribution': tags,
-        'oracle_samples': {'zlib_machine_abstraction_checked': len(cases), 'failed': len(machine_bad)},
+        'oracle_samples': {'zlib_machine_abstraction_checked': len(cases), 'failed': len(machine_bad),
+                           'after_end_marker_law_bytes_checked': reached_eof, 'after_end_marker_law_failed': len(after_eof_bad)},
         'errors_from_impl': sum(1 for x in results if x['stream'] is None),
         'disagreements': disagreements,
         'impl_violations': _violations(cases, results) + large_viol + glue['violations'],
